@@ -226,7 +226,13 @@ func (d *driver) viol(res *engine.Result, path, breach, what string, p []string,
 }
 
 // checkLocked is the state oracle evaluated after every successful non-delegation operation.
-func (d *driver) checkLocked(res *engine.Result, path string, m model, p []string) {
+// pre is the balance before the operation: the rule is about coins LEAVING the account, so a step
+// that did not lower the balance cannot break it (after a slash the account can legitimately hold
+// less than its schedules lock, once a merge has re-based its delegation tracking).
+func (d *driver) checkLocked(res *engine.Result, path string, m model, p []string, pre sdkmath.Int) {
+	if !d.bal().LT(pre) {
+		return
+	}
 	tr, isVesting := d.tracked(m)
 	if !isVesting {
 		// the account object is no longer a vesting account (converted): what the schedules lock is
@@ -330,7 +336,7 @@ func (d *driver) ops(w *world.World, depth int, path []string) []engine.Op {
 					res.Counters["spend|"+s.name+"|accepted-without-effect"]++
 				}
 				// something left the account (even a failed tx may have paid a fee)
-				d.checkLocked(res, s.name, m, p)
+				d.checkLocked(res, s.name, m, p, pre)
 				if post.LT(pre) {
 					res.Nontrivial[fmt.Sprintf("%s|%s|%s|%d", d.sc.name, s.name, cls, d.now()-d.t0)] = true
 				}
@@ -405,11 +411,12 @@ func (d *driver) ops(w *world.World, depth int, path []string) []engine.Op {
 		if !bonded.IsPositive() {
 			return "skip", m
 		}
+		preB := d.bal()
 		r := w.Deliver(d.cosmos([]sdk.Msg{stakingtypes.NewMsgUndelegate(d.V, v1, dcoin(bonded))}, nil, vKeyIdx))
 		if r.Code != 0 {
 			return "rejected", m
 		}
-		d.checkLocked(res, "undelegate", m, p)
+		d.checkLocked(res, "undelegate", m, p, preB)
 		return "ok", m
 	})
 	add("block(+5s)", func(p []string, res *engine.Result, m model) (string, model) {
@@ -425,6 +432,7 @@ func (d *driver) ops(w *world.World, depth int, path []string) []engine.Op {
 			return t
 		}
 		pre := ubd()
+		preB := d.bal()
 		w.VirtualNextBlock(5*time.Second, nil, nil)
 		back := pre.Sub(ubd())
 		nm := m
@@ -434,7 +442,7 @@ func (d *driver) ops(w *world.World, depth int, path []string) []engine.Op {
 				nm.delegated = sdkmath.ZeroInt()
 			}
 		}
-		d.checkLocked(res, "block", nm, p)
+		d.checkLocked(res, "block", nm, p, preB)
 		return "ok", nm
 	})
 	add("slash(50%)", func(p []string, res *engine.Result, m model) (string, model) {
@@ -444,8 +452,9 @@ func (d *driver) ops(w *world.World, depth int, path []string) []engine.Op {
 			return "skip", m
 		}
 		power := val.ConsensusPower(sdk.DefaultPowerReduction)
+		preB := d.bal()
 		w.App.StakingKeeper.Slash(ctx, w.ValCons[0], w.Header.Height, power, sdk.NewDecWithPrec(5, 1))
-		d.checkLocked(res, "slash", m, p)
+		d.checkLocked(res, "slash", m, p, preB)
 		return "ok", m
 	})
 	// the account asks to become a plain account again (allowed only when nothing is unvested or locked)
@@ -453,6 +462,7 @@ func (d *driver) ops(w *world.World, depth int, path []string) []engine.Op {
 		if _, isV := d.tracked(m); !isV {
 			return "skip", m
 		}
+		preB := d.bal()
 		r := w.Deliver(d.cosmos([]sdk.Msg{vtypes.NewMsgConvertVestingAccount(d.V)}, nil, vKeyIdx))
 		if r.Code != 0 {
 			return "rejected", m
@@ -464,7 +474,7 @@ func (d *driver) ops(w *world.World, depth int, path []string) []engine.Op {
 			d.viol(res, "convert-account", "converted-while-locked", "the vesting account was converted to a plain account while coins were still unvested or locked", p,
 				map[string]any{"original": orig.String(), "unlocked_vested_ref": uv.String()})
 		}
-		d.checkLocked(res, "convert-account", m, p)
+		d.checkLocked(res, "convert-account", m, p, preB)
 		res.Nontrivial[fmt.Sprintf("%s|convert-account|%d", d.sc.name, d.now()-d.t0)] = true
 		return "ok", m
 	})
@@ -499,7 +509,14 @@ func (d *driver) ops(w *world.World, depth int, path []string) []engine.Op {
 			d.viol(res, "grant-with-stake", "unvested-delegated", "the automatic staking of a new grant delegated more than balance minus unvested", p,
 				map[string]any{"delegated": staked.String(), "max_ref": maxD.String(), "unvested_ref": unv.String()})
 		}
-		d.checkLocked(res, "grant-with-stake", nm, p)
+		// this transaction is (also) a staking delegation, which the balance rule exempts; and the merge
+		// re-bases the account's delegation tracking on its actual bonded value, which after a slash
+		// raises the locked amount above the balance without a single coin leaving.  What still holds:
+		// the unvested coins are all in the account
+		if b := d.bal(); b.LT(unv) {
+			d.viol(res, "grant-with-stake", "below-unvested", "after a grant with automatic staking the balance is below the unvested amount", p,
+				map[string]any{"balance": b.String(), "unvested_ref": unv.String()})
+		}
 		res.Nontrivial[fmt.Sprintf("%s|grant-with-stake|%d", d.sc.name, d.now()-d.t0)] = true
 		return "ok", nm
 	})
@@ -526,7 +543,7 @@ func (d *driver) ops(w *world.World, depth int, path []string) []engine.Op {
 			nm.vest = nv
 			nm.lock = rm.CapSched(m.lock, kept)
 		}
-		d.checkLocked(res, "clawback", nm, p)
+		d.checkLocked(res, "clawback", nm, p, pre)
 		return "ok", nm
 	})
 	for _, k := range []int64{9, 10, 11, 19, 20, 21, 31} {
